@@ -398,15 +398,16 @@ Proof.
   intros E. apply joined_nil. rewrite <- B; [exact E|congruence].
 Qed.
 
-(* D7: a worker's batch is dropped because the caller cancelled, the cancel call has returned,
-   the consumer (paused between poll and select) then finds the channel closed: Err = nil *)
+(* D7: the consumer is between the ctx poll and the blocking select (pause point) when the caller
+   cancels; the cancel call returns, the pipeline winds down (dropping whatever it was scanning) and
+   closes the row channel; the select takes the closed-channel branch: Err = nil *)
 Definition d7_trace : list clabel :=
-  [LNextWait; LDeliverTry 0 [7%Z]; LCancelBegin; LCancelEnd; LDeliverCtx 0; LWorkersDone; LNextClosed false; LFinish].
+  [LNextWait; LCancelBegin; LCancelEnd; LWorkersDone; LNextClosed false; LFinish].
 
 Theorem terminal_err_pinned_refuted :
   exists s, creachable false s /\ n_done (c_n s) = true /\ m_finalized (c_m s) = true /\
             m_finby (c_m s) = ByNext /\ m_decphase (c_m s) = CYes /\ x_caller (c_x s) = CYes /\
-            m_int_at_done (c_m s) = true /\ n_returned (c_n s) = [] /\ m_err (c_m s) = TNil.
+            m_int_at_done (c_m s) = true /\ o_once (c_o s) = ONew /\ m_err (c_m s) = TNil.
 Proof.
   destruct (cursor_steps false (cinit 0) d7_trace) as [s|] eqn:E; [|vm_compute in E; discriminate].
   exists s. split; [eapply creachable_steps; [apply cr_init|exact E]|].
@@ -417,7 +418,7 @@ Qed.
 Example d7_trace_fixed :
   cursor_steps true (cinit 0) d7_trace = None /\
   option_map cur_err (cursor_steps true (cinit 0)
-    [LNextWait; LDeliverTry 0 [7%Z]; LCancelBegin; LCancelEnd; LDeliverCtx 0; LWorkersDone; LNextClosed true; LTermDecide true; LFinish])
+    [LNextWait; LCancelBegin; LCancelEnd; LWorkersDone; LNextClosed true; LTermDecide true; LFinish])
   = Some TCancel.
 Proof. vm_compute. split; reflexivity. Qed.
 
